@@ -90,6 +90,7 @@ TAGCHARS = 'abcdefghijklmnopqrstuvwxyzABCXYZ_0123456789'
 
 # identifier-like tags that are also words of the storage formats (JSON member / class names, XML element and
 # attribute names, literals, component suffixes): the property covers them like any other identifier
+KNOWN_HITS = {}
 RESERVED_TAGS = ['CLASS', 'Archive', 'Vector', 'LeafNode', 'ElementaryReal', 'IntermediateReal', 'Complex', 'uid', 'version',
                  'leaf_nodes', 'tagged_real', 'tagged_complex', 'untagged_real', 'intermediate_uids', 'x', 'u', 'df', 'label',
                  'independent', 'complex', 'correlation', 'ensemble', 'value', 'index', 'u_components', 'd_components',
@@ -140,8 +141,16 @@ def reserved_archive(kind, ctx_id, words=None):
         else:
             items[w] = core.result(base * (i + 1.5) + 1, label=w)
     ar = garchive.Archive()
-    for k, v in items.items():          # item assignment: add(self=...) is not expressible as a keyword
-        ar[k] = v
+    for k, v in items.items():
+        try:
+            ar.add(**{k: v})
+        except TypeError as ex:
+            # known finding C09-8, for the tag 'self' and no other: fall back to item assignment
+            if k == 'self' and "multiple values for argument 'self'" in str(ex):
+                KNOWN_HITS['add-self'] = KNOWN_HITS.get('add-self', 0) + 1
+                ar[k] = v
+            else:
+                raise
     return ar, list(items), items
 
 def build_archive(rng, ctx_id, labels=LABELS):
@@ -199,8 +208,18 @@ def build_archive(rng, ctx_id, labels=LABELS):
     for kind, obj in keep:
         items[rand_tag(rng, used)] = obj
     # half through add(**kw), half through item assignment
-    if rng.random() < 0.5 and 'self' not in items:     # add(self=...) cannot be written as a keyword argument
-        ar.add(**items)
+    if rng.random() < 0.5:
+        try:
+            ar.add(**items)
+        except TypeError as ex:
+            # known finding C09-8: the tag 'self' cannot be passed as a keyword; nothing else may fail here
+            if 'self' in items and "multiple values for argument 'self'" in str(ex):
+                KNOWN_HITS['add-self'] = KNOWN_HITS.get('add-self', 0) + 1
+                ar = garchive.Archive()
+                for k, v in items.items():
+                    ar[k] = v
+            else:
+                raise
     else:
         for k, v in items.items():
             ar[k] = v
@@ -244,14 +263,29 @@ PREFIX_BOUNDS = [64, 65, 90, 91, 94, 95, 96, 97, 122, 123, 44, 45, 46, 47, 48, 5
 def rand_prefix(rng):
     return ''.join(chr(rng.choice(PREFIX_BOUNDS)) for _ in range(rng.choice([1, 1, 2, 2, 3])))
 
-# utf-16 carries a byte-order mark; the 8-bit ones need the declaration ElementTree writes unless told not to:
-# xml_declaration=False with a non-ASCII-transparent text is not a self-describing document (reported, kept out)
-XML_ENCODINGS = [None, 'utf-8', 'unicode', 'us-ascii', 'utf-16', 'iso-8859-1', 'cp1252', 'ascii']
-NEEDS_DECLARATION = ('iso-8859-1', 'cp1252')
+# the pass-through `encoding` option: everything ElementTree accepts.  utf-16 carries a byte-order mark and works;
+# known finding C09-7 lists exactly three sub-classes that GTC's own reader (expat) or the schema validator cannot take:
+UNREADABLE_ENCODINGS = ('utf-16-le', 'utf-16-be', 'utf-32', 'shift_jis', 'cp037')     # (i) the reader cannot decode them
+ALIAS_ENCODINGS = ('utf8', 'latin-1')                          # (ii) alias spelling written verbatim into the declaration
+EIGHT_BIT_ENCODINGS = ('iso-8859-1', 'cp1252', 'latin-1')      # (iii) with xml_declaration=False and non-ASCII text
+XML_ENCODINGS = [None, 'utf-8', 'unicode', 'us-ascii', 'utf-16', 'iso-8859-1', 'cp1252', 'ascii', 'koi8-r',
+                 'utf-16-le', 'utf-16-be', 'utf-32', 'shift_jis', 'cp037', 'utf8', 'latin-1']
 XML_DECLS = [None, True, False]
 XML_GRID = [dict(indent=i, prefix=p, encoding=e, xml_declaration=d, short_empty_elements=s)
-            for i in XML_INDENTS for p in XML_PREFIXES for e in XML_ENCODINGS for d in XML_DECLS for s in (True, False)
-            if not (e in NEEDS_DECLARATION and d is False)]
+            for i in XML_INDENTS for p in XML_PREFIXES for e in XML_ENCODINGS for d in XML_DECLS for s in (True, False)]
+
+def xml_expected_failure(o, why, nonascii_bytes):
+    """is a failure of this XML option cell one of the three sub-classes of known finding C09-7 (and nothing else)?"""
+    if why not in ('not-well-formed', 'reload'):
+        return False
+    enc = o.get('encoding'); decl = o.get('xml_declaration')
+    if enc in UNREADABLE_ENCODINGS:
+        return True
+    if enc in ALIAS_ENCODINGS and decl is not False:       # the declaration carries the alias
+        return (enc == 'utf8' and why == 'reload') or (enc == 'latin-1' and why == 'not-well-formed')
+    if enc in EIGHT_BIT_ENCODINGS and decl is False and nonascii_bytes:
+        return True
+    return False
 
 def xml_kwargs(o):
     kw = {}
